@@ -25,7 +25,22 @@ CHECKS = {
                  "non-trivial = tree reached height >= 2 AND a present key was deleted AND a bounded range query ran; distinct = distinct plan JSON. "
                  "kind 'concurrent' = generated (tree size, writer/reader key partition) run under -race"),
         "assumptions": TREE_ASSUME,
-        "jobs": [{"pkg": "c01tree", "run": "TestTreeModel", "kinds": ["treeplan"], "shards_quick": 4, "scale_quick": 0.3, "scale_thorough": 8, "shards_thorough": 16}],
+        "jobs": [{"pkg": "c01tree", "run": "TestTreeModel", "kinds": ["treeplan"], "shards_quick": 4, "scale_quick": 0.3, "scale_thorough": 8, "shards_thorough": 16},
+                 {"pkg": "c01tree", "run": "TestConcurrent", "race": True, "kinds": ["concurrent"], "shards_quick": 2, "scale_quick": 0.5,
+                  "scale_thorough": 3, "shards_thorough": 8}],
+    },
+    "C02": {
+        "level": "exploration",
+        "level_text": ("Generated interleavings of Next calls on up to 4 simultaneously live forward/reverse iterators (all bound kinds) with Put/Delete and bulk "
+                       "mutations aimed at the iterator's position (last yielded key, the key the cursor is parked on, the gap between them, just beyond, far, outside), "
+                       "on trees of height 1-4; each Next is judged against history invariants: no panic, in bounds, strictly monotone, present now with current value, "
+                       "sticky end, no stable key skipped, inserted-beyond-next-yield obligation, comparator-call budget (no spin)"),
+        "level_note": "Trusts the reference model and the obligation bookkeeping in c02iter (rules 1-8 of DESIGN.md C02); hook used only to classify structural events; infinite loops that make no comparator call show up as a deadline (exit 2), not a violation.",
+        "technique": "stateful property-based testing (rapid): history invariants over generated Next/mutation interleavings",
+        "rule": ("rapid-generated plans: 0-2 prefills, then 2-81 steps (Open/Next/Put/Delete/DeleteRange/InsertRun/DrainAllBut/DeleteAll) with position-relative keys; all live iterators are "
+                 "drained at the end. non-trivial = a mutation that changed node count or height happened while some iterator was live, un-exhausted and had yielded at least once; distinct = distinct plan JSON"),
+        "assumptions": TREE_ASSUME,
+        "jobs": [{"pkg": "c02iter", "kinds": ["iterplan"], "shards_quick": 4, "scale_quick": 0.5, "scale_thorough": 8, "shards_thorough": 16}],
     },
     "C03": {
         "level": "exploration",
